@@ -84,7 +84,7 @@ PROPS = {
     ),
     "C04": dict(
         stages=[dict(test="TestC04", pkg="c04", quick=(16, 14), thorough=(16, 1000), timeout=dict(quick=900, thorough=3400))],
-        rule="case = group size 2-6 (thorough occasionally 7-12), threshold 1..n, polynomial kinds (library-random, deterministic, small, near-N, shared), "
+        rule="case = group size 2-6 (thorough occasionally 7-12), threshold 1..n, polynomial kinds (library-random, deterministic, small, near-N, shared, and `root`: an honest polynomial solved to vanish at another member's id, so that a consistent share is 0), "
              "CreationPeriod 4-12, a schedule (permutation of submissions per round + block boundaries) and per-member deviations: round 1 (bad A0 / one-time "
              "proof, short/long commitments, replay, wrong member id, mismatch, negated commitments, stop), round 2 (flipped / other scalar / +n / wrong nonce / "
              "wrong key / swapped / short / long shares, one share of malformed byte length in the first / a middle / the last slot, a correctly encrypted share whose 32-byte plaintext lies in [N, 2^256), stop), round 3 (false, mixed, bad key-sym (also with a proof re-made consistently for the wrong key-sym, so that only the second half of the equality proof can reject it), bad signature, non-member, self, impersonated complaints, one MsgComplain mixing the sender's own complaint with an entry naming ANOTHER member as complainant at position 1 or later, bad confirm, stop; one member sending TWO round-3 messages - complain/confirm in either order or twice the same kind, same or later block, with honest justified complaints scheduled after the pair), curve points of otherwise unchanged messages in uncompressed / hybrid encoding (one-time key, A0, higher commitments, complaint key-sym; acceptance follows the tx result), a daemon restart of a non-deviating member one block after its round-1/2/3 message (Query/PendingGroups decides, as in cylinder/workers/group, which step is redone; round 1 is redone with a fresh polynomial and one-time key), duplicates, out-of-round and non-member messages; after every block Query/PendingGroups must list the group for a member exactly while its message of the current round is outstanding; non-trivial = >=1 deviation applied AND rounds 1,2,3 all reached; "
@@ -307,7 +307,7 @@ PROPS = {
         rule="Loop: closed loop in virtual time (200-600 s, 1 s polling with drawn phase) between the real signaller step and the real feeds module on a "
              "sim chain: price-service streams with status flips and moves at old*(1+-dev)+{-1,0,1}, feed-list changes by votes, feeds parameter changes through real governance proposals in the middle of the run (CooldownTime up/down, GracePeriod, MaxInterval / MinInterval / PowerStepThreshold raised and cut with no feed recalculation for the rest of the history in a third of the slow-update cases, deviation bounds, PriceQuorum; the daemon reads the feed list through the real CurrentFeeds query server, whose answer is compared with the stored record after every block) followed by bursts of moves and status flips, drawn block-time "
              "offsets in [-3 s,+0.9 s], each of the daemon's four chain queries failing independently for drawn windows (also only the validator-prices query, from the hand-off of a batch until 0-3 ticks after its release; a tick whose queries do not all succeed is skipped by the daemon and excuses the liveness oracle), lost/failed/delayed (3-4 ticks in flight) submissions, current-feeds recalculations that change a listed feed's power/interval/deviation while its batch is in flight, non-round deviation thresholds with moves of exactly the threshold; non-trivial = >=1 status-change, >=1 deviation-triggered and >=1 slot-triggered "
-             "submission. Submit: submitPrice against RPC stubs with 10 drawn failure kinds and 1-3 nodes with per-node behaviour (healthy, slow, fails fast, fails late, CheckTx code; broadcasts attributed by the account sequence the tx carries); non-trivial = >=1 injected failure; distinct = hash of case JSON",
+             "submission. Submit: submitPrice against RPC stubs with 10 drawn failure kinds and 1-3 nodes with per-node behaviour (healthy, slow, fails fast, fails late, CheckTx code; broadcasts attributed by the account sequence the tx carries), plus a model-based run of the real multi-node querier (1-3 stub nodes, one fresh and the others lagging, outages of the fresh node: the remembered block height never decreases and an answer below it is refused); non-trivial = >=1 injected failure; distinct = hash of case JSON",
         explanation="(1) every landed submission is accepted by the real MsgSubmitSignalPrices handler under the chain's CURRENT params (a submission decided before a parameter change became visible to the daemon's once-per-tick poll is excused and counted); (2) the validator is never deactivated for a signal "
                     "the price service kept serving; (3) integer reference predicate (status change or deviation >= threshold, past cooldown+buffer, not "
                     "in flight) => the step emits the signal; (4) nothing in flight is emitted again, pending set == harness in-flight set; Part B: after "
